@@ -22,9 +22,11 @@ import (
 	"strings"
 	"sync"
 	"sync/atomic"
+	"time"
 
 	abci "github.com/gnolang/gno/tm2/pkg/bft/abci/types"
 	dbm "github.com/gnolang/gno/tm2/pkg/db"
+	"github.com/gnolang/gno/tm2/pkg/db/memdb"
 	_ "github.com/gnolang/gno/tm2/pkg/db/pebbledb"
 	"github.com/gnolang/gno/tm2/pkg/sdk"
 	"github.com/gnolang/gno/tm2/pkg/std"
@@ -60,7 +62,7 @@ var (
 	M    = map[string]int{}
 )
 
-const denom = "/gno.land/r/verif/peer:tok"
+const denom = "/gno.land/r/verif/peer:cns"
 
 // Tick writes several objects that must all carry the same height.
 func Tick(cur realm, h int) int {
@@ -85,6 +87,21 @@ func Pair(a, b, z string) string {
 		strconv.Itoa(int(bk.GetCoin(address(a), denom))) + "," + strconv.Itoa(int(bk.GetCoin(address(b), denom))) + "," + strconv.Itoa(int(bk.GetCoin(address(z), denom)))
 }
 
+// Slow reads H first, computes for a while, and only then touches the slice, the map and F:
+// objects that are loaded from the store when first used.
+func Slow(n int) string {
+	h0 := H
+	x := 0
+	for i := 0; i < n; i++ {
+		x += i & 3
+	}
+	last := 0
+	if len(List) > 0 {
+		last = List[len(List)-1]
+	}
+	return strconv.Itoa(h0) + "," + strconv.Itoa(F) + "," + strconv.Itoa(last) + "," + strconv.Itoa(M["h"]) + "," + strconv.Itoa(x)
+}
+
 // Heavy burns query gas while reading state at both ends.
 func Heavy(n int) string {
 	h0 := H
@@ -97,6 +114,10 @@ func Heavy(n int) string {
 `
 
 const tokTotal = 100000
+
+// probeDenom is issued only by the setup tx of this check: no generated tx mints, burns or sends it,
+// so alice+bob hold tokTotal of it at every height and zed holds one unit per tick.
+const probeDenom = "/gno.land/r/verif/peer:cns"
 
 type obs struct {
 	kind    string
@@ -111,12 +132,12 @@ func buildBlocks(c *vf.Ctx, rng *rand.Rand, n int) [][]hist.TxSpec {
 		height := i + 3 // genesis block 1, setup block 2
 		tick := hist.TxSpec{Signer: "dave", Gas: 60_000_000, Fee: 1_000_000, Label: "tick", Msgs: []hist.MsgSpec{{Kind: "call", Pkg: probePath, Func: "Tick", Args: []string{strconv.Itoa(height)}},
 			// the same tx moves one coin in the (versioned) bank store: zed's balance counts the ticks
-			{Kind: "send", To: "zed", Amount: 1, Denom: hist.PeerDenom}}}
+			{Kind: "send", To: "zed", Amount: 1, Denom: probeDenom}}}
 		from, to := "alice", "bob"
 		if i%2 == 1 {
 			from, to = "bob", "alice"
 		}
-		mv := hist.TxSpec{Signer: from, Gas: 20_000_000, Fee: 1_000_000, Label: "move", Msgs: []hist.MsgSpec{{Kind: "send", To: to, Amount: int64(1 + rng.IntN(300)), Denom: hist.PeerDenom}}}
+		mv := hist.TxSpec{Signer: from, Gas: 20_000_000, Fee: 1_000_000, Label: "move", Msgs: []hist.MsgSpec{{Kind: "send", To: to, Amount: int64(1 + rng.IntN(300)), Denom: probeDenom}}}
 		// keep generated txs of alice/bob/dave out (their sequences are used by the fixed txs)
 		var keep []hist.TxSpec
 		for _, t := range h.Blocks[i] {
@@ -136,6 +157,24 @@ type runner struct {
 	inConsensus atomic.Bool
 }
 
+// snapDB lets the harness act at the moment the store takes the point-in-time view that queries
+// will read (rootmulti refreshQuerySnapshot, inside Commit): before is called first, then the
+// backend's own NewSnapshot.
+type snapDB struct {
+	dbm.DB
+	before atomic.Pointer[func()]
+}
+
+func (d *snapDB) NewSnapshot() (dbm.Snapshot, error) {
+	if f := d.before.Load(); f != nil {
+		(*f)()
+	}
+	return d.DB.NewSnapshot()
+}
+
+// wrapDB, when set, wraps the database a new runner is built on.
+var wrapDB func(dbm.DB) dbm.DB
+
 func newRunner(c *vf.Ctx, backend, tag string, prune ...storetypes.PruneStrategy) *runner {
 	var db dbm.DB
 	if backend != "memdb" {
@@ -146,6 +185,12 @@ func newRunner(c *vf.Ctx, backend, tag string, prune ...storetypes.PruneStrategy
 		if err != nil {
 			panic(err)
 		}
+	}
+	if wrapDB != nil {
+		if db == nil {
+			db = memdb.NewMemDB()
+		}
+		db = wrapDB(db)
 	}
 	opts := chainsim.Options{DB: db}
 	if len(prune) > 0 {
@@ -170,8 +215,8 @@ func newRunner(c *vf.Ctx, backend, tag string, prune ...storetypes.PruneStrategy
 	// setup block: mint the constant-sum coin to alice
 	a := ch.Acc("alice")
 	tr := ch.OneTx([]std.Msg{
-		chainsim.MsgCall(a, hist.PeerPath, "Mint", a.Addr.String(), "tok", strconv.Itoa(tokTotal)),
-		chainsim.MsgCall(a, hist.PeerPath, "Mint", ch.Acc("dave").Addr.String(), "tok", "5000"),
+		chainsim.MsgCall(a, hist.PeerPath, "Mint", a.Addr.String(), "cns", strconv.Itoa(tokTotal)),
+		chainsim.MsgCall(a, hist.PeerPath, "Mint", ch.Acc("dave").Addr.String(), "cns", "5000"),
 	}, chainsim.Fee(120_000_000, 1_000_000), a)
 	if !tr.OK {
 		panic("mint failed: " + tr.ErrString)
@@ -371,6 +416,10 @@ func run(c *vf.Ctx) {
 				}
 				pr.ch.Close()
 			}
+			// ---- injected schedule: a long query pins its state at the very moment Commit renews the
+			// point-in-time view for queries (between the block's writes and the new view), and two more
+			// blocks commit before it touches most of its objects: all of them must still be one version
+			refreshPhase(c, backend, bi, blocks)
 			// ---- explicit past heights (no concurrency at all): the answer must be the state of that height
 			for back := int64(1); back <= 3; back++ {
 				hq := gr.committed.Load() - back
@@ -422,6 +471,109 @@ func run(c *vf.Ctx) {
 	c.RequireCounter("queries:pair", 20)
 	c.RequireCounter("queries_overlapping_consensus", 20)
 	c.RequireCounter("pair_answers_checked", 20)
+}
+
+func refreshPhase(c *vf.Ctx, backend string, bi int, blocks [][]hist.TxSpec) {
+	var sd *snapDB
+	wrapDB = func(d dbm.DB) dbm.DB { sd = &snapDB{DB: d}; return sd }
+	rr := newRunner(c, backend, fmt.Sprintf("refresh-%d", bi))
+	wrapDB = nil
+	defer rr.ch.Close()
+	nx := 0
+	for nx < len(blocks) && nx < 3 {
+		rr.play(blocks[nx : nx+1])
+		nx++
+	}
+	slow := func(n int) (abci.ResponseQuery, any) {
+		var resp abci.ResponseQuery
+		pv := vf.Try(func() {
+			resp = rr.ch.App.Query(abci.RequestQuery{Path: "vm/qeval", Data: []byte(probePath + ".Slow(" + strconv.Itoa(n) + ")")})
+		})
+		return resp, pv
+	}
+	// size the loop so that the query outlasts several blocks (detection power only, never a verdict)
+	t0 := time.Now()
+	slow(20000)
+	perIter := time.Since(t0) / 20000
+	t0 = time.Now()
+	rr.play(blocks[nx : nx+1])
+	nx++
+	perBlock := time.Since(t0)
+	n := 20000
+	if perIter > 0 {
+		n = int(6 * perBlock / perIter)
+	}
+	n = min(max(n, 20000), 400000)
+	for round := 0; round < c.N(6, 20) && nx+2 < len(blocks); round++ {
+		type ans struct {
+			resp abci.ResponseQuery
+			pv   any
+		}
+		done := make(chan ans, 1)
+		reached := make(chan struct{}, 1)
+		started := false
+		var atPin int64
+		before := func() {
+			if started {
+				return
+			}
+			started = true
+			atPin = rr.committed.Load()
+			hook := func() {
+				select {
+				case reached <- struct{}{}:
+				default:
+				}
+			}
+			sdk.VerifQueryGap.Store(&hook)
+			go func() {
+				resp, pv := slow(n)
+				done <- ans{resp, pv}
+			}()
+			// the query pins its state right after the hook point; give it a moment to get there
+			select {
+			case <-reached:
+				time.Sleep(20 * time.Millisecond)
+			case <-time.After(3 * time.Second):
+			}
+			sdk.VerifQueryGap.Store(nil)
+		}
+		sd.before.Store(&before)
+		rr.play(blocks[nx : nx+1]) // the query is started inside this block's Commit
+		sd.before.Store(nil)
+		nx++
+		if !started {
+			c.Inconclusive("the store did not ask the database for a point-in-time view during Commit: refresh phase not exercised")
+			return
+		}
+		rr.play(blocks[nx : nx+2]) // two more blocks while the query computes
+		nx += 2
+		spanned := len(done) == 0
+		a := <-done
+		c.Case(fmt.Sprintf("%s/refresh/%d", backend, round), spanned)
+		c.Count("refresh_queries", 1)
+		if spanned {
+			c.Count("refresh_queries_still_running_after_two_more_blocks", 1)
+		}
+		w := map[string]any{"backend": backend, "kind": "slow", "injected": "query started inside Commit, when the store renews its point-in-time view; two blocks committed before it finished", "committed_when_started": atPin, "committed_when_finished": rr.committed.Load(), "loop": n, "data": clip(string(a.resp.Data))}
+		if a.pv != nil || a.resp.Error != nil {
+			c.Count("refresh_queries_refused", 1) // an error is not a mixed answer
+			continue
+		}
+		f := ints(string(a.resp.Data))
+		if len(f) != 5 {
+			c.Violation("slow-unparseable", w, "cannot parse probe answer %q", clip(string(a.resp.Data)))
+			continue
+		}
+		c.Count("refresh_answers_checked", 1)
+		if h := f[0]; h != 0 && (f[1] != 7*h+3 || f[2] != h || f[3] != h) {
+			c.Violation("query-mixes-versions:pinned-during-view-renewal", w, "backend %s: a query that started while Commit renewed the query view read H=%d first and later F=%d last=%d M[h]=%d: not one committed version", backend, h, f[1], f[2], f[3])
+		}
+		if h := int64(f[0]); h != 0 && (h < atPin || h > atPin+1) {
+			c.Violation("query-sees-wrong-height:pinned-during-view-renewal", w, "backend %s: the answer carries height %d; %d was committed when the query started inside the Commit of %d", backend, h, atPin, atPin+1)
+		}
+	}
+	c.RequireCounter("refresh_answers_checked", 2)
 }
 
 func checkPair(c *vf.Ctx, backend string, o obs, w map[string]any, variant string) {
